@@ -43,6 +43,7 @@ class AbstractCsrGraphFactory(GraphFactory[OntologyGraph], metaclass=abc.ABCMeta
     def create_graph(self, edge_list: typing.Sequence[DirectedEdge]) -> GRAPH:
         # Find root node
         self._logger.debug('Creating ontology graph from %d edges', len(edge_list))
+        edge_list = _remove_duplicate_edges(edge_list)
         root, edge_list = _phenol_find_root(edge_list)
         self._logger.debug('Found root %s', root.value)
 
@@ -104,6 +105,7 @@ class CsrIndexedGraphFactory(GraphFactory[IndexedOntologyGraph]):
     def create_graph(self, edge_list: typing.Sequence[DirectedEdge]) -> GRAPH:
         # Find root node
         self._logger.debug('Creating ontology graph from %d edges', len(edge_list))
+        edge_list = _remove_duplicate_edges(edge_list)
         root, edge_list = _phenol_find_root(edge_list)
         self._logger.debug('Found root %s', root.value)
 
@@ -194,6 +196,14 @@ def get_unique_nodes(edge_list: typing.Sequence[DirectedEdge]) -> typing.Collect
         nodes.add(edge[0])
         nodes.add(edge[1])
     return nodes
+
+
+def _remove_duplicate_edges(edge_list: typing.Sequence[DirectedEdge]) -> typing.Sequence[DirectedEdge]:
+    """
+    Drop the repeated edges while keeping the order of the first occurrences,
+    so that a repeated edge does not lead to a node being reported more than once.
+    """
+    return list(dict.fromkeys((edge[0], edge[1]) for edge in edge_list))
 
 
 def _phenol_find_root(edge_list: typing.Sequence[DirectedEdge]) -> typing.Tuple[NODE, typing.Sequence[DirectedEdge]]:
